@@ -1,3 +1,4 @@
+import GenlmModel.Proofs.GenLink.WfsaPush
 import Batteries.Tactic.Alias
 import GenlmModel.Proofs.MinDet
 import GenlmModel.Proofs.Wfsa2
@@ -53,4 +54,10 @@ alias determinize_pipeline_preserves := Genlm.determinize_pipeline_preserves
 alias determinize_pipeline_preserves_decidable := Genlm.determinize_pipeline_preserves_states
 alias determinize_pipeline_drop_preserves := Genlm.determinize_pipelineDrop_preserves
 alias min_det_pipeline_preserves := Genlm.minDet_pipeline_preserves
+
+/-! ## re-checked tie to the source: the definitions REGENERATED from the Python functions on every run
+(`Generated/Builders.lean` / `Generated/Folds.lean`, by `harness/translate.py`) are the hand-written models the theorems here are about -/
+alias gen_WFSA_push_eq_model := Genlm.gen_WFSA_push_eq_model
+alias gen_WFSA_push_path_sums := Genlm.gen_WFSA_push_Pk
+alias gen_WFSA_trim_eq_model := Genlm.gen_WFSA_trim_eq_model
 end Genlm.Props.C13
